@@ -60,8 +60,9 @@ func checkC19(c *Ctx) error {
 	for g := 0; g < gens; g++ {
 		var last []byte
 		for r := 0; r < reps; r++ {
-			out := filepath.Join(w.TempDir("c19"), "gontainer.go")
-			run := cli.Do(w, bin, nil, w.Repo, out, selfArgs(out, false)...)
+			// in place, exactly as `make self-compile` does: the target file exists and holds the previous generation
+			out := filepath.Join(w.Repo, "internal/gontainer/gontainer.go")
+			run := cli.Do(w, bin, nil, w.Repo, out, selfArgs("internal/gontainer/gontainer.go", false)...)
 			key := fmt.Sprintf("gen%d/rep%d", g, r)
 			c.Eval(key, true)
 			for _, b := range run.Contract() {
